@@ -23,6 +23,7 @@ logging.getLogger("mappyfile").propagate = False
 assert os.path.realpath(mappyfile.__file__).startswith(os.path.realpath(common.REPO)), mappyfile.__file__
 
 _workers = {}
+_counts = {}
 
 
 def loader(include_position=False, include_comments=False, expand_includes=True):
@@ -32,10 +33,20 @@ def loader(include_position=False, include_comments=False, expand_includes=True)
         m = MapfileToDict(include_position=include_position, include_comments=include_comments)
         _workers[key] = (p, m)
     p, m = _workers[key]
+    n = _counts.setdefault(("loads", key), [0])
 
     def loads(text):
+        # one call in PUBLIC_LOADS_EVERY goes through the public function (which builds its own workers)
+        n[0] += 1
+        if n[0] % PUBLIC_LOADS_EVERY == 0:
+            return mappyfile.loads(text, expand_includes=expand_includes, include_position=include_position,
+                                   include_comments=include_comments)
         return m.transform(p.parse(text))
     return loads
+
+
+PUBLIC_LOADS_EVERY = 250
+PUBLIC_DUMPS_EVERY = 5
 
 
 _printers = {}
@@ -45,7 +56,16 @@ def dumper(**opts):
     key = tuple(sorted(opts.items()))
     if key not in _printers:
         _printers[key] = PrettyPrinter(**opts)
-    return _printers[key].pprint
+    pp = _printers[key]
+    n = _counts.setdefault(("dumps", key), [0])
+
+    def dumps(d):
+        # one call in PUBLIC_DUMPS_EVERY goes through the public function
+        n[0] += 1
+        if n[0] % PUBLIC_DUMPS_EVERY == 0:
+            return mappyfile.dumps(d, **opts)
+        return pp.pprint(d)
+    return dumps
 
 
 _validator = None
